@@ -135,10 +135,10 @@ func VH_C15_Names3(g0, g1, g2 int) { vhC15([]int{g0, g1, g2}) }
 //
 //verif:prop C15
 //verif:tier thorough
-//verif:param g0 0..2
-//verif:param g1 0..2
-//verif:param g2 0..2
-//verif:param g3 0..2
+//verif:param g0 0..1
+//verif:param g1 0..1
+//verif:param g2 0,2
+//verif:param g3 0,2
 //verif:replay-iters 100
 func VH_C15_Names4(g0, g1, g2, g3 int) { vhC15([]int{g0, g1, g2, g3}) }
 
